@@ -30,6 +30,40 @@ CLAIMED["C02"] = dict(
          "Known findings (open): u16 overflow of server_size/client_size for the two largest expressible body lengths.",
     design="§4 C02")
 
+CLAIMED["C05"] = dict(
+    technique="Kani contracts on encrypted header getters / writers / readers / expect helpers run against the real wow_srp cipher code with symbolic cipher state; RC4 keystream contract proved separately and used as verified stub; Verus lock-step induction",
+    text="Proof: for any cipher state equal on both peers (any 40/20-byte key, index and previous byte for Vanilla/TBC; any RC4 S-box, i, j for Wrath), any opcode and any expressible body length, "
+         "the encrypted header getter writes exactly Enc(spec_header) and nothing else; every decrypting reader given Enc(header) for any plain header consumes header+announced body, hands (opcode, length, body) on and "
+         "leaves decrypter and encrypter states equal (the inductive invariant); a Verus lemma lifts this to all finite message sequences. Wrath message-level contracts run with RC4's apply_keystream replaced by an abstract stream cipher; "
+         "the contract that justifies this (mask and next state depend on state and length only; split calls compose) is itself proved on the real RC4 with a fully symbolic S-box.",
+    note="Trusted: Kani/CBMC, Verus/Z3, framing spec. NOT executed: wow_srp key derivation (HMAC-SHA1, RC4 KSA, drop-1024) - states are arbitrary and assumed equal on both peers. Dispatcher read_opcodes stubbed (C01/C04). "
+         "Encrypted default-writer glue executed for body lengths {0,1,2,5,8} (bounded stand-in, reported separately). Compressed-message writer overrides (zlib) and tokio/async-std copies not under contract.",
+    design="§4 C05")
+CLAIMED["C11"] = dict(
+    technique="Kani contract per generated enum (from_int / as_int / variants / TryFrom family) against the (name,value) table read independently from the wowm; full integer domains, loop-free",
+    text="Proof: for every generated enum the contract `conversion succeeds iff the numeric value (bit-reinterpreted for the same-width other-signedness source) is declared, names that enumerator, round-trips, errors report the value, variants() is the declaration order` "
+         "is discharged by CBMC over the complete 8..64-bit domain of every source type (stronger than exhaustive-to-16-bit). quick: changed files + seeded sample; thorough: all 300 enums.",
+    note="Trusted: Kani/CBMC; the independent wowm reader (spec/wowm.py). Variant identifiers are linked to wowm names by CamelCase conversion (X suffix for clashes); a lost anchor makes the run undecided. Display/Default not under contract.",
+    design="§4 C11")
+CLAIMED["C12"] = dict(
+    technique="Kani contract per generated flag type (constants, is/new/set/clear per enumerator, empty/all, bit operators, From/TryFrom) over the full raw-integer domain, tables from the wowm reader",
+    text="Proof: for every flag type and every raw value the set-algebra contract is discharged by CBMC (loop-free, complete). quick: changed files + seeded sample; thorough: all 56 flag types.",
+    note="Trusted: Kani/CBMC; wowm reader. Known findings (open, identified by a behavioural signature so that any other misbehaviour of the same method is still reported): clear_* uses reverse_bits(); TryFrom<i8/i16/i32> into wider flags zero-extends negative values. "
+         "Flag structs synthesised for conditional members inside wow_world_messages are not yet under contract.",
+    design="§4 C12")
+CLAIMED["C16"] = dict(
+    technique="Verus on WorldVersion::{overlaps,covers} and LoginVersion::{overlaps,fullfills} extracted verbatim each run: postcondition = closed form, lemmas closed form <=> set semantics",
+    text="Proof (kernel only): the version relations used for type lookup and clash detection equal intersection / inclusion of the sets of exact builds the patterns denote, for all patterns (unbounded, Z3). "
+         "The rule -> exit-status behaviour of the generator process is not decided by this check.",
+    note="Scope: version algebra only; error_printer / conversion / parsed_tags are outside any contract. Trusted: Verus/Z3, the set semantics `den`. Derives replaced by structural equality.",
+    design="§4 C16")
+CLAIMED["C20"] = dict(
+    technique="Verus real-arithmetic contracts on a mechanical f32->real transliteration of is_within_square / distance_between / is_within_distance (re-cut each run); Kani contracts on AreaTrigger::contains and verify_trigger (full tables) with the float helpers stubbed",
+    text="Proof modulo 'f32 treated as the reals': the transliterated bodies equal the geometric definition (rotated-box frame with 2-yard tolerance; Euclidean distance; closer-than-radius) for all real inputs; "
+         "contains() requires the same map and calls the right helper with (player, trigger) in the right order, and verify_trigger returns NotFound / Success / NotInsideTrigger of the first table entry with that id, for all three expansions' full tables.",
+    note="Trusted: f32 as R (rounding, NaN, infinities ignored); sin(2pi-y)=-sin y, cos(2pi-y)=cos y; sqrt facts; the transliteration table; Verus/Z3, Kani/CBMC. Verus gives no counterexample: on refutation a candidate search runs the real f32 code.",
+    design="§4 C20")
+
 NA = {
     "C06": "quantifies over delivery schedules of async readers; neither verifier handles async state machines within reach (Kani+tokio: no result in 10 min for a 4-byte message) and the chunking behaviour is a contract of tokio/async-std, not of this code",
     "C07": "a statement about every input program of a text-emitting generator; no function contract can refer to the meaning of the emitted Rust text (compiler verification); the corpus instance is C01",
